@@ -42,6 +42,13 @@ class NoiseProperties(abc.ABC):
         """Construct all NoiseModels associated with this NoiseProperties."""
 
 
+class _SplitMeasurementTag:
+    """Marks the single-qubit pieces of the index-th measurement of a circuit."""
+
+    def __init__(self, index: int) -> None:
+        self.index = index
+
+
 @value.value_equality
 class NoiseModelFromNoiseProperties(devices.NoiseModel):
     def __init__(self, noise_properties: NoiseProperties) -> None:
@@ -79,7 +86,7 @@ class NoiseModelFromNoiseProperties(devices.NoiseModel):
         # Split multi-qubit measurements into single-qubit measurements.
         # These will be recombined after noise is applied.
         split_measure_moments = []
-        multi_measurements = {}
+        multi_measurements: list[cirq.Operation] = []
         for moment in moments:
             split_measure_ops = []
             for op in moment:
@@ -87,9 +94,12 @@ class NoiseModelFromNoiseProperties(devices.NoiseModel):
                     split_measure_ops.append(op)
                     continue
                 m_key = protocols.measurement_key_obj(op)
-                multi_measurements[m_key] = op
+                # A key may be measured more than once, so the pieces remember
+                # which measurement they came from by its position, not its key.
+                split_tag = _SplitMeasurementTag(len(multi_measurements))
+                multi_measurements.append(op)
                 for q in op.qubits:
-                    split_measure_ops.append(ops.measure(q, key=m_key))
+                    split_measure_ops.append(ops.measure(q, key=m_key).with_tags(split_tag))
             split_measure_moments.append(circuits.Moment(split_measure_ops))
 
         # Append PHYSICAL_GATE_TAG to non-virtual ops in the input circuit,
@@ -121,14 +131,15 @@ class NoiseModelFromNoiseProperties(devices.NoiseModel):
         final_moments = []
         for moment in noisy_circuit:
             combined_measure_ops = []
-            restore_keys = set()
+            restore_indices: dict[int, None] = {}
             for op in moment:
-                if not protocols.is_measurement(op):
+                split_tags = [tag for tag in op.tags if isinstance(tag, _SplitMeasurementTag)]
+                if not split_tags:
                     combined_measure_ops.append(op)
                     continue
-                restore_keys.add(protocols.measurement_key_obj(op))
-            for key in restore_keys:
-                combined_measure_ops.append(multi_measurements[key])
+                restore_indices[split_tags[0].index] = None
+            for index in restore_indices:
+                combined_measure_ops.append(multi_measurements[index])
             final_moments.append(circuits.Moment(combined_measure_ops))
         return final_moments
 
